@@ -40,6 +40,12 @@ func payloadOf(class string) []byte {
 		return streamOf(40)
 	case "p498":
 		return streamOf(498)
+	case "p499":
+		return streamOf(499)
+	case "p500":
+		return streamOf(500)
+	case "p501":
+		return streamOf(501)
 	case "big":
 		return streamOf(600)
 	default:
@@ -275,7 +281,7 @@ func TestNoiseCases(t *testing.T) {
 		}
 	}
 	// payload sizes at the v0 boundary and beyond
-	for _, pl := range []string{"p498", "large"} {
+	for _, pl := range []string{"p498", "p499", "p500", "p501", "large"} {
 		for _, v := range [][2]int{{0, 0}, {1, 1}, {0, 2}} {
 			if pl == "large" && v[1] == 0 {
 				continue
